@@ -109,7 +109,8 @@ def _r1(ctx):
                         cp_map = True
     pair("CP cell shown for critical-path lines only", cp_guard or cp_map, cv.where(call[0]) if call else cv.where(),
          "the CP cell must be filled iff the line number is in the critical path's line numbers",
-         recognised=bool(call) and len(call[0].args) > 1 and pm.match("M_a if M_b else M_c", call[0].args[1]) is not None)
+         recognised=bool(call) and len(call[0].args) > 1 and (pm.match("M_a if M_b else M_c", call[0].args[1]) is not None
+                                                              or isinstance(call[0].args[1], (ast.Name, ast.Attribute))))
     # --- LCD cell / LatencyLCD
     dv = _dict_value(fd, "LatencyLCD", "LatencyCP")
     text_src = pm.find("M_l = {M_i.line_number: M_lat for M_i, M_lat in M_e['dependencies']}", cv.node)
